@@ -139,7 +139,8 @@ func c18Run(c *vfCtx, cs c18Case) {
 		return
 	}
 	if stored := vfUnescapeModel(es[0].Body); stored != cs.Text {
-		if k1 && class == "" {
+		prev := class
+		if k1 {
 			// K1 only explains THIS check: the stored text cannot be mapped back; replaying must still work
 			class = "K1-escape-not-injective"
 		}
@@ -147,7 +148,7 @@ func c18Run(c *vfCtx, cs c18Case) {
 		if class != "K1-escape-not-injective" {
 			return
 		}
-		class = ""
+		class = prev
 	}
 	// replay
 	vfResetState(false, "", true)
